@@ -105,8 +105,14 @@ def start_change_stop(versions, fmts):
             old = P.small_state(w, "old")
             fs.files[P.fname(fmt)] = [("GOOD", old), True]
             fs.cancel_sleep_at = 0  # asyncio: stop() cancels the task while it sleeps
+            # asyncio: did the event loop get a turn between start_persistence() and stop()?  If
+            # not (start-up, one message handled inline, shutdown), the periodic save task has
+            # not run a single step when stop() cancels it.
+            turn = w.flag("loop_ran_before_stop") if flavour == "async" else True
+            fs.loop.tasks_start_at_once = turn
             g = P.pgateway(w, version, fmt, flavour)
-            w.info = {"version": version, "format": fmt, "flavour": flavour}
+            w.info = {"version": version, "format": fmt, "flavour": flavour,
+                      "loop_ran_before_stop": turn}
             try:
                 P.run_sync_or_coro(w, w.call(g.gw.start_persistence))
             except Exception as exc:
@@ -116,10 +122,11 @@ def start_change_stop(versions, fmts):
             child = w.fresh_int("new.child", 0, 254)
             w.assume_fast(w.ne(child, old[0][1][7][0][0]))
             line = C.structured_line(w, [nid, child, 0, 0, 6], "t")
+            import asyncio
             try:
                 C.step_line(w, g, line)
                 P.run_sync_or_coro(w, w.call(g.gw.stop))
-            except Exception as exc:
+            except (Exception, asyncio.CancelledError) as exc:
                 w.escaped(exc, "message / stop raised")
             final = P.snapshot(g.gw.sensors)
             w.check(len(final[0][1][7]) == 2, "the child presentation was not recorded")
